@@ -169,4 +169,21 @@ META = {
          'abstracted to a wildcard). The generated Go visitor is not parsed: its pattern set is measured.',
  'technique': 'Lean 4 generic visitor theorems + regenerated finite obligation (decide +kernel) + exhaustive per-path measurement and random '
               'combination runs on the real code'},
+    "C06": {'text': 'Theorems over a fine-grained machine of StreamForwarder.Run (handler, two relay loops, two startListener goroutines, the CloseSend '
+         'goroutine, latch, contexts, 1 s guard) for ALL action lists = all message sequences in both directions, every ending kind (EOF, error, '
+         'unknown kind, send failure, cancelled context, proxy shutdown) at every position, every interleaving: (a) what a peer received is always a '
+         "prefix of what the other sent; (b) while a direction relays the account is exact (sent = received ++ at most two in the proxy's hands ++ "
+         'still queued); (c) every internal action strictly decreases an explicit measure (every Go schedule terminates), a reachable quiescent '
+         'state with an ending is Done (both loops finished, latch set, CloseSend attempted, outgoing context cancelled, handler returned, all six '
+         'goroutines gone), hence every maximal schedule and the scheduler `settle` end together - under GrpcStreamEnv, WITHOUT assuming the source '
+         'answers the half-close. Each hypothesis is shown necessary by a kernel-checked stuck-worker witness, incl. a latent leak of the CloseSend '
+         'goroutine when the 1 s guard fires (reproduced on the real code). Model tied to the real handler by op-for-op differential runs in '
+         'synctest bubbles, observing which goroutines are alive, plus a direct monitor of the statement.',
+ 'design_ref': 'DESIGN.md §5 C06, §3 GrpcStreamEnv',
+ 'note': 'Trusted: Lean kernel; axioms propext/Classical.choice/Quot.sound only; the theorem statements; the Go harness (generators, canonicaliser) '
+         'that ties the hand-written model to /repo by differential execution on every run. Modelled not verified: gRPC stream semantics '
+         "(GrpcStreamEnv, emulated by the fakes), Send never blocks indefinitely, ClusterConnection's shutdown wiring (lifetime -> client connection "
+         "closed), Go's select/scheduler (explored through real concurrency inside the bubble, resolved by relay-count hints).",
+ 'technique': 'Lean 4 invariant + termination-measure proof over a fine-grained transition system (all interleavings, all ending positions) + '
+              'model/implementation correspondence with goroutine-level observation'},
 }
